@@ -14,6 +14,7 @@ import WaveletsVerif.Properties.C01
 import WaveletsVerif.Properties.C10
 import WaveletsVerif.Lemmas.PR
 import Mathlib.Tactic.IntervalCases
+import Mathlib.Algebra.BigOperators.Group.Finset.Sigma
 namespace WV.C02
 open Finset WV
 variable {R : Type} [CommRing R]
@@ -286,6 +287,219 @@ theorem impl_pr_padded (m : Mode) (hm : m = .zero ∨ m = .symmetric ∨ m = .pe
     · rw [hlen h0 rfl, hK, hg0]; omega
   · intro t ht
     exact pr_padded m hmp h0 h1 g0 g1 x hL hh1 hg0 hg1 hpr t ht
+
+
+theorem sum_fold_image (Rr n : Nat) (hn : 0 < n) (F : Int → R) :
+    ∑ r ∈ range Rr, ∑ k ∈ range n, F ((k:Int) - (r:Int) * n)
+      = ∑ s ∈ (range Rr ×ˢ range n).image (fun p : Nat × Nat => (p.2:Int) - (p.1:Int) * n), F s := by
+  rw [Finset.sum_image]
+  · exact (Finset.sum_product' (range Rr) (range n) (fun r k => F ((k:Int) - (r:Int) * n))).symm
+  · intro p hp q hq heq
+    simp only [Finset.mem_coe, Finset.mem_product, Finset.mem_range] at hp hq
+    simp only at heq
+    have h1 : ((p.2:Int) - (p.1:Int) * n) % n = p.2 := by
+      rw [Int.sub_mul_emod_self_right]; exact Int.emod_eq_of_lt (by omega) (by omega)
+    have h2 : ((q.2:Int) - (q.1:Int) * n) % n = q.2 := by
+      rw [Int.sub_mul_emod_self_right]; exact Int.emod_eq_of_lt (by omega) (by omega)
+    have e2 : (p.2:Int) = q.2 := by rw [← h1, ← h2, heq]
+    have e1 : (p.1:Int) * n = (q.1:Int) * n := by omega
+    have e1' : (p.1:Int) = q.1 := by
+      have hn' : (n:Int) ≠ 0 := by omega
+      exact mul_right_cancel₀ hn' e1
+    ext <;> omega
+
+/-- **Perfect reconstruction in periodization mode** (PyWavelets' formulas), even length -/
+theorem pr_periodization_even (h0 h1 g0 g1 x : List R) (hL : 2 ≤ h0.length) (hLe : h0.length % 2 = 0)
+    (hh1 : h1.length = h0.length) (hg0 : g0.length = h0.length) (hg1 : g1.length = h0.length)
+    (hpr : PRBank h0 h1 g0 g1) (hNe : x.length % 2 = 0) (hN : 2 ≤ x.length) (u : Nat) (hu : u < x.length) :
+    getN (Spec.idwt .periodization g0 g1 (Spec.dwt .periodization h0 x) (Spec.dwt .periodization h1 x)) u
+      = getN x u := by
+  set N := x.length with hNdef
+  set L := h0.length with hLdef
+  set n := N / 2 with hn
+  have hN2 : N = 2 * n := by omega
+  have hodd : ¬ (N % 2 = 1) := by omega
+  -- the periodic extension, shifted so that the analysis reads `e (2k+1-j)`
+  set e : Int → R := fun i => getZ x ((i + ((L/2 : Nat) : Int) - 1) % (N:Int)) with he
+  have e_per : ∀ i : Int, ∀ r : Int, e (i + r * N) = e i := by
+    intro i r
+    simp only [he]
+    congr 1
+    have : i + r * (N:Int) + ((L/2 : Nat) : Int) - 1 = (i + ((L/2 : Nat) : Int) - 1) + r * N := by ring
+    rw [this, Int.add_mul_emod_self_right]
+  -- analysis coefficients
+  have hdwt : ∀ (h : List R), h.length = L →
+      Spec.dwt .periodization h x = tab n fun k => ∑ j ∈ range L, getN h j * e (2*(k:Int) + 1 - (j:Int)) := by
+    intro h hh
+    simp only [Spec.dwt, ← hNdef, hodd, if_false, hh, ← hn]
+    apply tab_ext rfl; intro k hk
+    rw [sumN_eq]
+    apply Finset.sum_congr rfl; intro j _
+    simp only [he]
+    congr 3; omega
+  -- the `n`-periodic coefficient sequences on the integer line
+  set lt : List R → Int → R := fun h k => ∑ j ∈ range L, getN h j * e (2*k + 1 - (j:Int)) with hlt
+  have lt_per : ∀ (h : List R) (k r : Int), lt h (k - r * n) = lt h k := by
+    intro h k r
+    simp only [hlt]
+    apply Finset.sum_congr rfl; intro j _
+    congr 1
+    have : 2 * (k - r * (n:Int)) + 1 - (j:Int) = (2*k + 1 - (j:Int)) + (-r) * (N:Int) := by
+      rw [hN2]; push_cast; ring
+    rw [this, e_per]
+  have hget : ∀ (h : List R), h.length = L → ∀ k < n, getN (Spec.dwt .periodization h x) k = lt h (k:Int) := by
+    intro h hh k hk
+    rw [hdwt h hh, getN_tab, if_pos hk]
+  have hlen : ∀ (h : List R), h.length = L → (Spec.dwt .periodization h x).length = n := by
+    intro h hh; rw [hdwt h hh, length_tab]
+  simp only [Spec.idwt, hlen h0 hLdef.symm, hg0]
+  rw [getN_tab, ← hN2, if_pos hu]
+  set u' : Int := ((u:Int) + ((L/2 : Nat) : Int) - 1) % (N:Int) with hu'
+  have hu0 : 0 ≤ u' := Int.emod_nonneg _ (by omega)
+  have hu1 : u' < N := Int.emod_lt_of_pos _ (by omega)
+  set F : Int → R := fun s => lt h0 s * getZ g0 (u' - 2*s) + lt h1 s * getZ g1 (u' - 2*s) with hF
+  rw [sumN_eq]
+  have hterm : ∀ r ∈ range ((N + L - 2) / N + 1),
+      (if u' + (r:Int) * (N:Int) < 0 ∨ ((N + L - 2 : Nat) : Int) ≤ u' + (r:Int) * (N:Int) then (0:R)
+      else
+        sumN n fun k =>
+          getN (Spec.dwt Mode.periodization h0 x) k * getZ g0 (u' + (r:Int) * (N:Int) - 2 * (k:Int)) +
+            getN (Spec.dwt Mode.periodization h1 x) k * getZ g1 (u' + (r:Int) * (N:Int) - 2 * (k:Int)))
+      = ∑ k ∈ range n, F ((k:Int) - (r:Int) * n) := by
+    intro r _
+    have hrN : (0:Int) ≤ (r:Int) * (N:Int) := by positivity
+    have hcongr : ∀ k ∈ range n, F ((k:Int) - (r:Int) * n)
+        = getN (Spec.dwt Mode.periodization h0 x) k * getZ g0 (u' + (r:Int) * (N:Int) - 2 * (k:Int)) +
+            getN (Spec.dwt Mode.periodization h1 x) k * getZ g1 (u' + (r:Int) * (N:Int) - 2 * (k:Int)) := by
+      intro k hk
+      have hk' : k < n := by simpa using hk
+      simp only [hF]
+      rw [lt_per, lt_per, hget h0 hLdef.symm k hk', hget h1 hh1 k hk']
+      have : u' - 2 * ((k:Int) - (r:Int) * (n:Int)) = u' + (r:Int) * (N:Int) - 2 * (k:Int) := by
+        rw [hN2]; push_cast; ring
+      rw [this]
+    by_cases hc : u' + (r:Int) * (N:Int) < 0 ∨ ((N + L - 2 : Nat) : Int) ≤ u' + (r:Int) * (N:Int)
+    · rw [if_pos hc]
+      symm
+      apply Finset.sum_eq_zero
+      intro k hk
+      have hk' : k < n := by simpa using hk
+      rw [hcongr k hk]
+      have hge : (L:Int) ≤ u' + (r:Int) * (N:Int) - 2 * (k:Int) := by
+        rcases hc with hc | hc
+        · omega
+        · omega
+      rw [getZ_of_ge g0 _ (by rw [hg0]; exact hge), getZ_of_ge g1 _ (by rw [hg1]; exact hge)]
+      ring
+    · rw [if_neg hc, sumN_eq]
+      apply Finset.sum_congr rfl; intro k hk
+      rw [hcongr k hk]
+  rw [Finset.sum_congr rfl hterm, sum_fold_image _ n (by omega) F]
+  have hT : u' = (u' - (L:Int) + 2) + (L:Int) - 2 := by ring
+  have hFeq : ∀ s : Int, F s =
+      (∑ j ∈ range h0.length, getN h0 j * e (2*s + 1 - (j:Int))) * getZ g0 ((u' - (L:Int) + 2) + h0.length - 2 - 2*s)
+       + (∑ j ∈ range h0.length, getN h1 j * e (2*s + 1 - (j:Int))) * getZ g1 ((u' - (L:Int) + 2) + h0.length - 2 - 2*s) := by
+    intro s
+    simp only [hF, hlt, ← hLdef]
+    have : u' - (L:Int) + 2 + (L:Int) - 2 - 2*s = u' - 2*s := by ring
+    rw [this]
+  rw [Finset.sum_congr rfl (fun s _ => hFeq s)]
+  rw [pr_line h0 h1 g0 g1 e _ (u' - (L:Int) + 2) hL hh1 hg0 hg1 hpr]
+  · -- e (u' - L + 2) = x_u
+    simp only [he]
+    rw [getN_eq_getZ]
+    congr 1
+    have h2 : u' - (L:Int) + 2 + ((L/2 : Nat) : Int) - 1 = u' - ((L/2 : Nat):Int) + 1 := by push_cast; omega
+    rw [h2, hu']
+    have h3 : (((u:Int) + ((L/2 : Nat) : Int) - 1) % (N:Int) - ((L/2 : Nat):Int) + 1) % (N:Int) = (u:Int) % N := by
+      rw [show ((u:Int) + ((L/2 : Nat) : Int) - 1) % (N:Int) - ((L/2 : Nat):Int) + 1
+            = ((u:Int) + ((L/2 : Nat) : Int) - 1) % (N:Int) - (((L/2 : Nat):Int) - 1) by ring]
+      rw [Int.sub_emod, Int.emod_emod_of_dvd _ (dvd_refl _), ← Int.sub_emod]
+      congr 1; ring
+    rw [h3]
+    exact Int.emod_eq_of_lt (by omega) (by omega)
+  · -- the image set covers the support
+    intro k hk0 hk1
+    rw [← hLdef] at hk0 hk1
+    rw [Finset.mem_image]
+    have hnpos : (0:Int) < n := by omega
+    have hdm := Int.emod_add_mul_ediv k n
+    have hm0 := Int.emod_nonneg k (show (n:Int) ≠ 0 by omega)
+    have hm1 := Int.emod_lt_of_pos k hnpos
+    have hNm := Nat.div_add_mod (N + L - 2) N
+    have hNm2 := Nat.mod_lt (N + L - 2) (show 0 < N by omega)
+    set m := (N + L - 2) / N with hm
+    set q := k / (n:Int) with hq
+    have hq0 : q ≤ 0 := by
+      by_contra hc
+      have : (n:Int) * 1 ≤ n * q := mul_le_mul_of_nonneg_left (by omega) (by omega)
+      omega
+    have hqm : -(m:Int) ≤ q := by
+      by_contra hc
+      have h1 : (n:Int) * q ≤ n * (-(m:Int) - 1) := mul_le_mul_of_nonneg_left (by omega) (by omega)
+      have h2 : (N:Int) * m + ((N + L - 2) % N : Nat) = (N:Int) + L - 2 := by
+        have := congrArg (fun z : Nat => (z:Int)) hNm
+        push_cast at this
+        omega
+      have h3 : (N:Int) * m = 2 * ((n:Int) * m) := by rw [hN2]; push_cast; ring
+      have h4 : (n:Int) * (-(m:Int) - 1) = -((n:Int) * m) - n := by ring
+      omega
+    refine ⟨((-q).toNat, (k % (n:Int)).toNat), ?_, ?_⟩
+    · rw [Finset.mem_product, Finset.mem_range, Finset.mem_range]
+      constructor <;> simp only <;> omega
+    · simp only
+      have e1 : (((-q).toNat : Nat) : Int) = -q := by omega
+      have e2 : (((k % (n:Int)).toNat : Nat) : Int) = k % n := by omega
+      rw [e1, e2]
+      have : -q * (n:Int) = -((n:Int) * q) := by ring
+      rw [this]; omega
+
+/-- odd lengths: PyWavelets (and the code) first repeat the last sample, so the statement follows from the
+even case on `x ++ [x_{N-1}]` -/
+theorem pr_periodization (h0 h1 g0 g1 x : List R) (hL : 2 ≤ h0.length) (hLe : h0.length % 2 = 0)
+    (hh1 : h1.length = h0.length) (hg0 : g0.length = h0.length) (hg1 : g1.length = h0.length)
+    (hpr : PRBank h0 h1 g0 g1) (hN : 1 ≤ x.length) (u : Nat) (hu : u < x.length) :
+    getN (Spec.idwt .periodization g0 g1 (Spec.dwt .periodization h0 x) (Spec.dwt .periodization h1 x)) u
+      = getN x u := by
+  by_cases hpar : x.length % 2 = 0
+  · exact pr_periodization_even h0 h1 g0 g1 x hL hLe hh1 hg0 hg1 hpr hpar (by omega) u hu
+  · have hodd : x.length % 2 = 1 := by omega
+    set x' := x ++ [getN x (x.length - 1)] with hx'
+    have hlen' : x'.length = x.length + 1 := by simp [hx']
+    have hd : ∀ h : List R, Spec.dwt .periodization h x = Spec.dwt .periodization h x' := by
+      intro h
+      have hodd' : ¬ (x'.length % 2 = 1) := by omega
+      simp only [Spec.dwt, hodd, hodd', if_true, if_false, ← hx']
+    rw [hd h0, hd h1, pr_periodization_even h0 h1 g0 g1 x' hL hLe hh1 hg0 hg1 hpr (by omega) (by omega) u (by omega)]
+    unfold getN
+    rw [hx']
+    simp [List.getD_eq_getElem?_getD, List.getElem?_append_left hu]
+
+/-- **Implementation-level perfect reconstruction, periodization**: for every even-length bank with `PRBank`
+and every signal at least as long as the filter (`L ≤ N + N % 2`, the complement being the recorded finding
+`C02-periodization-short`), the models of `afb1d` and `sfb1d` (roll, single fold) return every sample of `x`. -/
+theorem impl_pr_periodization (h0 h1 g0 g1 x : List R) (hL : 2 ≤ h0.length) (hLe : h0.length % 2 = 0)
+    (hh1 : h1.length = h0.length) (hg0 : g0.length = h0.length) (hg1 : g1.length = h0.length)
+    (hpr : PRBank h0 h1 g0 g1) (hN : 1 ≤ x.length) (hLN : h0.length ≤ x.length + x.length % 2) :
+    ∃ lo hi y, afb1dOne .periodization h0.reverse x = some lo ∧ afb1dOne .periodization h1.reverse x = some hi ∧
+      sfb1dCh .periodization g0 g1 lo hi = some y ∧ ∀ t < x.length, getN y t = getN x t := by
+  have hlen : ∀ (h : List R), h.length = h0.length →
+      (Spec.dwt .periodization h x).length = (x.length + x.length % 2) / 2 := by
+    intro h hh
+    by_cases hpar : x.length % 2 = 1
+    · simp [Spec.dwt, hpar]
+    · have : x.length % 2 = 0 := by omega
+      simp [Spec.dwt, this]
+  refine ⟨Spec.dwt .periodization h0 x, Spec.dwt .periodization h1 x,
+    Spec.idwt .periodization g0 g1 (Spec.dwt .periodization h0 x) (Spec.dwt .periodization h1 x),
+    C01.afb1dOne_per_eq_dwt_partial_all h0 x hLe hL hN hLN,
+    C01.afb1dOne_per_eq_dwt_partial_all h1 x (by omega) (by omega) hN (by omega), ?_, ?_⟩
+  · apply C10.sfb1dCh_per_eq_idwt_partial g0 g1 _ _ (by omega) (by omega)
+    · rw [hlen h0 rfl]; omega
+    · rw [hlen h0 rfl, hlen h1 hh1]
+    · rw [hlen h0 rfl, hg0]; omega
+  · intro t ht
+    exact pr_periodization h0 h1 g0 g1 x hL hLe hh1 hg0 hg1 hpr hN t ht
 
 /-- with the un-pad rule this is perfect reconstruction on the original extent, with `N` or `N+1` samples -/
 theorem pr_zero_length (h0 g0 g1 x : List R) (h1 : List R) (hL : 2 ≤ h0.length) (hg0 : g0.length = h0.length)
